@@ -8,8 +8,8 @@ cd $wt
 export CARGO_NET_OFFLINE=true CARGO_TARGET_DIR=/tmp/vs-target
 git apply /verif/seeded/$id/patch.diff
 cargo test --workspace --offline --no-fail-fast > /tmp/vs-$id-suite.log 2>&1
-fails=$(grep -E "^test .* FAILED" /tmp/vs-$id-suite.log | grep -v "prime_redirect\|package_and_post" | wc -l)
-cp /verif/seeded/$id/$demo $ddir/
+fails=$(grep -E "^test .* FAILED" /tmp/vs-$id-suite.log | grep -v "prime_redirect\|package_and_post\|test result" | wc -l)
+mkdir -p $ddir; cp /verif/seeded/$id/$demo $ddir/
 cargo test --offline "$@" > /tmp/vs-$id-demo-with.log 2>&1; with=$?
 git apply -R /verif/seeded/$id/patch.diff
 cargo test --offline "$@" > /tmp/vs-$id-demo-without.log 2>&1; without=$?
